@@ -78,7 +78,9 @@ Clauses(S, o) ==
 Verdict(r) ==
   IF r.anom # <<>> THEN <<"C14:raised." \o r.anom[1]>> ELSE
   LET S == FromJ(r.st) IN
-  IF ~Integrity(S) THEN <<"tainted">>
+  \* the input was built by the harness through public calls only: if it is not even consistent the
+  \* check cannot vouch for the property on it (and some call broke C01 / C03 on the way)
+  IF ~Integrity(S) THEN <<"C14:input.not-a-consistent-network">>
   ELSE LET cl == Clauses(S, r.obs)
            bad == SelectSeq([k \in DOMAIN cl |-> k], LAMBDA k : ~cl[k][2])
        IN [k \in DOMAIN bad |-> "C14:" \o cl[bad[k]][1]]
